@@ -30,7 +30,7 @@ def cc_bytes(ver, mle, mlc, tlv_tag, fid, mfs, rf, wf):
 class SimT4T(object):
     def __init__(self, ver=0x20, tlv_tag=4, mle=0x3B, mlc=0x34, mfs=64, flen=None, rf=0, wf=0,
                  ndef_fid=b"\xE1\x04", ndef=b"", other_fid=b"\xE1\x05", other=b"", fsci=8, fwi=8,
-                 uid=bytes.fromhex("04832F9A272D80"), cut_after=None, tech="A"):
+                 uid=bytes.fromhex("04832F9A272D80"), cut_after=None, tech="A", outage=None):
         self.tech = tech
         self.ver, self.tlv_tag, self.mle, self.mlc, self.mfs = ver, tlv_tag, mle, mlc, mfs
         self.rf, self.wf = rf, wf
@@ -46,6 +46,12 @@ class SimT4T(object):
         self.fsci, self.fwi, self.uid = fsci, fwi, bytes(uid)
         self.fsc = FSC_TABLE[fsci]
         self.cut_after = cut_after
+        # transient outage (k, r): frames are numbered from the first block of the first UPDATE BINARY command
+        # (0-based, every PCD frame counts); frames k..k+r-1 do not reach the PICC (no answer, logged with
+        # drop=True; the first frame that gets through again is logged with okmark=True)
+        self.outage = outage
+        self.fidx = None
+        self.dropping = False
         self.nwrites = 0           # executed state-changing commands (UPDATE BINARY)
         self.napdu = 0             # executed APDUs of any kind
         self.log = []              # dict(fid=, off=, data=, ok=) per UPDATE BINARY that reached a selected file
@@ -53,12 +59,14 @@ class SimT4T(object):
         self.breaches = []
         self.powered = True
         self.power_on()
+        self.cut_after, self.outage = cut_after, outage      # (power_on() clears the fault scripts)
 
     # ---- session state ---------------------------------------------------------------------
     def power_on(self):
         """A fresh activation: volatile protocol state is reset, memory is kept."""
         self.powered = True
         self.cut_after = None
+        self.outage = None
         self.active = False        # RATS done
         self.bn = 1                # PICC block number (rule C)
         self.fsd = 256
@@ -104,6 +112,17 @@ class SimT4T(object):
         if len(frame) + 2 > self.fsc:
             self.breaches.append("frame>FSC")
             return None
+        if self.fidx is None and frame[0] & 0xE2 == 0x02 and not self.rx_chain and frame[1:3] == b"\x00\xD6":
+            self.fidx = 0
+        if self.fidx is not None:
+            j, self.fidx = self.fidx, self.fidx + 1
+            if self.outage is not None and self.outage[0] <= j < sum(self.outage):
+                self.log.append(dict(drop=True))
+                self.dropping = True
+                return None
+            if self.dropping:
+                self.dropping = False
+                self.log.append(dict(okmark=True))
         pcb = frame[0]
         if pcb & 0xE2 == 0x02 and pcb & 0x0C == 0:              # I-block (no CID, no NAD)
             self.bn ^= 1                                          # rule D
